@@ -125,7 +125,14 @@ static void inject_after(Conn *c, int dir, int idx)
 					for (int b = 0; b < 8; b++) E = (E << 8) | rs[b];
 					uint64_t shift = S + (1ULL << f->c) - E;
 					uint8_t *arr[2] = { rs, ss };
-					for (int a = 0; a < 2; a++) {
+					uint64_t SS = 0;
+					for (int b = 0; b < 8; b++) SS = (SS << 8) | ss[b];
+					/* forwards only, and beyond every record still in flight (sent under numbers E .. SS-1 but not yet
+					 * read): were the receiver moved to a number inside that range, a genuine in-flight record would
+					 * match it after a few rejected ones and be delivered out of position — the harness's doing */
+					int sound = (int64_t)shift > (int64_t)(SS - E) + 8 && SS >= E
+						&& g_ep[0].hs_returned && g_ep[1].hs_returned;      /* both ends count records of the same epoch */
+					for (int a = 0; a < 2 && sound; a++) {
 						uint64_t v = 0;
 						for (int b = 0; b < 8; b++) v = (v << 8) | arr[a][b];
 						v += shift;
